@@ -644,16 +644,6 @@ impl<'lexer> Lexer<'lexer> {
     // now must be decides what kind of name it is, by checking the parsing scope
 
     // ------------------------------------------------------------------------
-    // tweak with name of the `item` in filter
-    // ------------------------------------------------------------------------
-    if let Some(part_name) = parts.get(0) {
-      if part_name == "item" {
-        self.position = consumed_positions[0] + 1;
-        return Ok((TokenType::Name, TokenValue::Name(Name::from("item"))));
-      }
-    }
-
-    // ------------------------------------------------------------------------
     // tweak with the name in `for` and `quantified` expressions
     // variable name is the name before the keyword `in`
     // ------------------------------------------------------------------------
@@ -685,6 +675,17 @@ impl<'lexer> Lexer<'lexer> {
         return Ok((TokenType::Name, TokenValue::Name(part_sublist.to_vec().into())));
       }
       part_count -= 1;
+    }
+
+    // ------------------------------------------------------------------------
+    // tweak with name of the `item` in filter,
+    // when no name that begins with `item` is known in the current context
+    // ------------------------------------------------------------------------
+    if let Some(part_name) = parts.get(0) {
+      if part_name == "item" {
+        self.position = consumed_positions[0] + 1;
+        return Ok((TokenType::Name, TokenValue::Name(Name::from("item"))));
+      }
     }
 
     // build the name from name parts
